@@ -72,6 +72,19 @@ def eq(a, b):
         return a == b
 
 
+def spoil(v):
+    """overwrite, in place, every array reachable in a returned zero"""
+    if isinstance(v, onp.ndarray):
+        if v.flags.writeable and v.size:
+            v[...] = 7.0
+    elif isinstance(v, (list, tuple)):
+        for t in v:
+            spoil(t)
+    elif isinstance(v, dict):
+        for t in v.values():
+            spoil(t)
+
+
 def has_box(v):
     if isbox(v):
         return True
@@ -130,6 +143,13 @@ def main():
             vjp, val = make_vjp(lambda a: out_val)(x)
             z = vjp(onp.ones(2))
             record("make_vjp-independent", desc, same_zero(z, x) and eq(val, out_val), repr(z))
+            # the zero handed out is the caller's to keep (and to overwrite): the next call still returns an exact zero
+            try:
+                spoil(z)
+            except Exception:
+                pass
+            z2 = vjp(onp.ones(2))
+            record("make_vjp-independent-second-call", desc, same_zero(z2, x), repr(z2))
             val, t = make_jvp(lambda a: out_val)(x)(x)
             record("make_jvp-independent", desc, same_zero(t, out_val) and eq(val, out_val), repr(t))
             if isinstance(x, onp.ndarray) or isinstance(x, float):
